@@ -37,7 +37,18 @@ PROPS["C07"] = {
         + [J(c07 + "UniEmbed", np=p, nq=q) for p in (0, 1) for q in (0, 1)]
         + [J(c07 + "U16Embed", np=p, nq=q, covers=["bmp unit", "surrogate pair"]) for p in (0, 1) for q in (0, 1)]
     ),
-    "bounds": {"quick": "round trips: every byte string of length <= 3 (octal, hex); every string of <= 2 arbitrary Unicode scalar values (unicode, utf16); every byte string of length <= 3 incl. invalid UTF-8; arbitrary parser input: every byte string of length <= 7 (octal, hex), <= 12 (unicode, utf16); embedded escapes: every well-formed escape (all values, both letter cases) between every backslash-free prefix/suffix of <= 2 (oct/hex) / <= 1 (unicode/utf16) bytes"},
+    "thorough": (
+        [J(c07 + "OctRoundTrip", n=4), J(c07 + "HexRoundTrip", n=4)]
+        + [J(c07 + "OctArb", n=n) for n in (8, 9)]
+        + [J(c07 + "HexArb", n=n) for n in (8, 9)]
+        + [J(c07 + "UniArb", n=n) for n in (1, 4, 6, 8, 13)]
+        + [J(c07 + "U16Arb", n=n) for n in (1, 4, 8, 9, 10, 13)]
+        + [J(c07 + "UniEmbed", np=p, nq=q) for (p, q) in ((2, 0), (0, 2), (2, 2))]
+        + [J(c07 + "U16Embed", np=p, nq=q, covers=["bmp unit", "surrogate pair"]) for (p, q) in ((2, 0), (0, 2), (2, 2))]
+        + [J(c07 + "UniInvalid", n=4)]
+    ),
+    "bounds": {"quick": "round trips: every byte string of length <= 3 (octal, hex); every string of <= 2 arbitrary Unicode scalar values (unicode, utf16); every byte string of length <= 3 incl. invalid UTF-8; arbitrary parser input: every byte string of length <= 7 (octal, hex), <= 12 (unicode, utf16); embedded escapes: every well-formed escape (all values, both letter cases) between every backslash-free prefix/suffix of <= 2 (oct/hex) / <= 1 (unicode/utf16) bytes",
+               "thorough": "round trips of 4 bytes (octal, hex); arbitrary parser input up to 9 (octal, hex) and 13 bytes (unicode, utf16), further lengths in between; prefixes/suffixes of 2 bytes around unicode/utf16 escapes; Format/Parse of 4 arbitrary bytes incl. invalid UTF-8"},
     "outside": ["longer inputs", "exact output for escapes adjacent to other escapes (only no-panic/length/no-backslash-identity is asserted for arbitrary input, as in the property)"],
     "assumptions": ["dst passed to the Parse functions has len(src) bytes, as the ToString wrappers allocate it"],
     "level_text": "Bounded symbolic model checking of the real strz codecs: every feasible path of Format/Parse (and ToString forms) for all inputs within the length bounds is executed symbolically; round-trip, shape, length, identity and embedding assertions are decided by the solver for all byte values on each path.",
@@ -156,6 +167,8 @@ PROPS["C16"] = {
         J(c16 + "DszEnum", ops=3, cands=8),
         J(c16 + "DszSym", words=3, ops=3),
         J(c16 + "BitsStep", na=2, nb=3),
+        J(c16 + "BitsStep2", na=2, nb=2),
+        J(c16 + "BitsSym", words=2, ops=2, lenmode=1),
     ],
     "thorough": [
         J(c16 + "BitsEnum", ops=3),
@@ -164,8 +177,10 @@ PROPS["C16"] = {
         J(c16 + "DszEnum", ops=4),
         J(c16 + "DszSym", words=4, ops=5),
         J(c16 + "BitsStep", na=3, nb=4),
+        J(c16 + "BitsStep2", na=3, nb=3),
+        J(c16 + "BitsSym", words=3, ops=3, lenmode=1),
     ],
-    "bounds": {"quick": "setz.Bits/Bitmap: 3 operations on two sets (Add/Remove/Diff/Intersect/Merge/Clone/Grow) with symbolic numbers < 192, membership of a fresh symbolic number and Len after each; enumeration (Iter/Range/All incl. early stop) after each of 2 operations over the word-boundary numbers {0,1,62,63,64,65,126,127,128,129,191,200} and of 3 operations over {63,64,0,127,128}; one operation from an arbitrary state: 0..2 fully symbolic 64-bit words, other operand 0..3 fully symbolic words, symbolic argument < 256 (inductive step); dsz.Bits: 3 operations symbolic and enumerated",
+    "bounds": {"quick": "setz.Bits/Bitmap: 3 operations on two sets (Add/Remove/Diff/Intersect/Merge/Clone/Grow) with symbolic numbers < 192, membership of a fresh symbolic number and Len after each; enumeration (Iter/Range/All incl. early stop) after each of 2 operations over the word-boundary numbers {0,1,62,63,64,65,126,127,128,129,191,200} and of 3 operations over {63,64,0,127,128}; one operation from an arbitrary state: 0..2 fully symbolic 64-bit words, other operand 0..3 fully symbolic words, symbolic argument < 256 (inductive step); a bulk operation on arbitrary words immediately followed by Add/Remove with Len observed only afterwards; 2 operations with Len observed either after every call or only at the end; dsz.Bits: 3 operations symbolic and enumerated",
                "thorough": "4 operations, 4 words; arbitrary-state step with 0..3 and 0..4 words"},
     "outside": ["numbers >= 256", "enumeration (Iter/Range/All) over an arbitrary symbolic word (forks on every bit): enumeration is checked on the concrete boundary candidates only"],
     "assumptions": ["in-package constructor VerifBits builds words + length=popcount (the representation invariant of Bits)", "math/bits.OnesCount64 is encoded by its SWAR formula on both sides"],
@@ -291,6 +306,8 @@ PROPS["C02"] = {
         J(c02 + "Cmp", ops=2, clear=1, covers=["cleared"]),
         J(c02 + "GrowShrink", a=2, b=2, c=1),
         J(c02 + "GrowShrink", a=2, b=2, c=1, cmp=1),
+        J(c02 + "GrowShrink", a=2, clearmid=1, c=2),
+        J(c02 + "GrowShrink", a=2, clearmid=1, c=2, cmp=1),
     ],
     "thorough": [
         J(c02 + "Plain", ops=3, clear=1, covers=["cleared"], cfg={"MaxPaths": 60000000}),
@@ -299,7 +316,7 @@ PROPS["C02"] = {
         J(c02 + "GrowShrink", a=3, b=2, c=1, cfg={"MaxPaths": 60000000}),
         J(c02 + "GrowShrink", a=2, b=2, c=2, cmp=1, cfg={"MaxPaths": 60000000}),
     ],
-    "bounds": {"quick": "SkipList[int,int]: 3 arbitrary operations (Set/SetNx/SetX/Remove/read; Clear in a 2-operation variant), SkipListWithCmp[int,int]: 2 arbitrary operations incl. Clear; with symbolic 64-bit keys and values and symbolic tower heights (every outcome of the random level choice, including towers that grow the top level and removals that shrink it), followed by a full observation: Len, Keys, Values, Head, Get/GetNode of a fresh symbolic key, Range and All with early stop after 1 or 2 callbacks, RangeWithStart(s) and RangeWithRange(s,e) for fresh symbolic bounds; comparator family: order of (key xor m) for an arbitrary 64-bit m, ascending or descending; zero-value SkipList: optional Clear first, then 2 arbitrary operations incl. Clear and the full observation; grow/shrink scripts: 2 inserts, 2 removals, 1 insert with symbolic keys and tower heights (top level grows, shrinks and grows again) followed by Len/Keys/Values/Get",
+    "bounds": {"quick": "SkipList[int,int]: 3 arbitrary operations (Set/SetNx/SetX/Remove/read; Clear in a 2-operation variant), SkipListWithCmp[int,int]: 2 arbitrary operations incl. Clear; with symbolic 64-bit keys and values and symbolic tower heights (every outcome of the random level choice, including towers that grow the top level and removals that shrink it), followed by a full observation: Len, Keys, Values, Head, Get/GetNode of a fresh symbolic key, Range and All with early stop after 1 or 2 callbacks, RangeWithStart(s) and RangeWithRange(s,e) for fresh symbolic bounds; comparator family: order of (key xor m) for an arbitrary 64-bit m, ascending or descending; zero-value SkipList: optional Clear first, then 2 arbitrary operations incl. Clear and the full observation; grow/shrink scripts: 2 inserts, 2 removals, 1 insert with symbolic keys and tower heights (top level grows, shrinks and grows again) followed by Len/Keys/Values/Get, and 2 inserts, Clear, 2 inserts (towers regrow over whatever Clear left in the upper levels) followed by the same observation",
                "thorough": "3 operations incl. Clear for both lists; zero value: 3 operations"},
     "outside": ["more operations", "key types other than int (same generic code)", "comparators that are not injective total orders of this family"],
     "assumptions": ["math/rand outputs are arbitrary 64-bit words (stub); the comparator is a strict total order on keys"],
@@ -395,7 +412,7 @@ PROPS["C12"] = {
     "concurrent": True,
     "shim": {"files": ["mapz/safekv.go", "mapz/iter.go"], "sync": True},
     "quick": [
-        J(c12 + "Conc", threads=2, ops=1, opset=0, cfg={"Preempt": 2, "Witnesses": 0}, map_order="insertion"),
+        J(c12 + "Conc", threads=2, ops=1, opset=0, fullinit=1, cfg={"Preempt": 2, "Witnesses": 0}, map_order="insertion"),
         J(c12 + "Conc", threads=2, ops=2, opset=1, cfg={"Preempt": 2, "Witnesses": 0, "MaxPaths": 80000000}, map_order="insertion"),
     ],
     "thorough": [
@@ -403,7 +420,7 @@ PROPS["C12"] = {
         J(c12 + "Conc", threads=2, ops=2, opset=0, cfg={"Preempt": 2, "Witnesses": 0, "MaxPaths": 80000000}, map_order="insertion"),
         J(c12 + "Conc", threads=2, ops=1, opset=0, cfg={"Preempt": 3, "Witnesses": 0}, map_order="two"),
     ],
-    "bounds": {"quick": "2 goroutines x 1 method over all 14 methods (Get/Set/SetNx/SetX/Delete/Has/Len/Keys/Values/Range/All/GetWithMap/Map/Clear) and 2 x 2 methods over SetNx/SetX/Delete/Keys/Clear, keys {1,2}, initial map empty or {1:100}; every interleaving of the lock operations with at most 2 preemptions; vector-clock race check on the map, its length and the entries field",
+    "bounds": {"quick": "2 goroutines x 1 method over all 14 methods (Get/Set/SetNx/SetX/Delete/Has/Len/Keys/Values/Range/All/GetWithMap/Map/Clear) and 2 x 2 methods over SetNx/SetX/Delete/Keys/Clear, keys {1,2}, initial map empty, {1:100} or (1-method scripts) {1:100, 2:200}; every interleaving of the lock operations with at most 2 preemptions; vector-clock race check on the map, its length and the entries field",
                "thorough": "3 goroutines x 1 and 2 x 2 over all methods; 3 preemptions; map iteration order forward and reversed"},
     "outside": ["more goroutines/operations", "GetWithLock (not named in the property)", "key/value types other than int"],
     "assumptions": ["RWMutex semantics as in the Go memory model (engine model: writers exclude everyone, readers exclude writers)", "a Go map counts as one memory location for race purposes (reads race with writes), as in the race detector"],
@@ -449,6 +466,7 @@ PROPS["C05"] = {
         J(c05 + "Queries", npat=3, plen=1, lastlen=3, tlen=3, letters=2, invalid=0, cfg=TR),
         J(c05 + "Queries", npat=2, plen=2, tlen=3, letters=2, invalid=0, rot=2, cfg=TR),
         J(c05 + "Queries", npat=2, plen=2, tlen=3, letters=2, invalid=0, rot=3, cfg=TR),
+        J(c05 + "Queries", npat=3, len0=4, len1=3, len2=1, tlen=4, letters=2, invalid=0, cfg=TR),
         J(c05 + "Prefix", npat=2, plen=2, klen=2, letters=4, cfg=TR),
         J(c05 + "Prefix", npat=3, plen=2, klen=1, letters=3, cfg=TR),
     ],
@@ -461,7 +479,7 @@ PROPS["C05"] = {
         J(c05 + "Prefix", npat=3, plen=3, klen=2, letters=3, cfg=TR),
         J(c05 + "Prefix", npat=2, plen=3, klen=3, letters=4, cfg=TR),
     ],
-    "bounds": {"quick": "alphabet of symbolic runes: one arbitrary 1-byte, 2-byte, 3-byte (U+FFFD included) and 4-byte rune; pattern sets: 2 patterns of 0..2 letters with texts of 0..2 letters over 3 letters / 0..3 letters over 2 letters, plus one arbitrary invalid byte at any position, and 3 patterns (two of <= 1 letter, one of 3) over 2 letters with texts <= 3 (nested, overlapping, duplicate and empty patterns all arise); 2-letter alphabets {1-byte, 2-byte}, {3-byte, 4-byte} and {4-byte, 1-byte} runes; PrefixSearch/FuzzySearch: 2 patterns <= 2 letters over 4 letters with keys <= 2, 3 patterns <= 2 over 3 letters with keys <= 1; lemma for the breadth-first order of BuildFailureLinks: the private node queue from every reachable state (capacity 1..4, symbolic head position < 65536, every fill) followed by every sequence of 4 pushes/pops and a drain pops in FIFO order (growth of a wrapped buffer included)",
+    "bounds": {"quick": "alphabet of symbolic runes: one arbitrary 1-byte, 2-byte, 3-byte (U+FFFD included) and 4-byte rune; pattern sets: 2 patterns of 0..2 letters with texts of 0..2 letters over 3 letters / 0..3 letters over 2 letters, plus one arbitrary invalid byte at any position, and 3 patterns (two of <= 1 letter, one of 3) over 2 letters with texts <= 3 (nested, overlapping, duplicate and empty patterns all arise); 2-letter alphabets {1-byte, 2-byte}, {3-byte, 4-byte} and {4-byte, 1-byte} runes; 3 patterns of exactly 4, 3 and 1 letters over 2 letters with texts <= 4 (failure-link chains of length 2 and 3); PrefixSearch/FuzzySearch: 2 patterns <= 2 letters over 4 letters with keys <= 2, 3 patterns <= 2 over 3 letters with keys <= 1; lemma for the breadth-first order of BuildFailureLinks: the private node queue from every reachable state (capacity 1..4, symbolic head position < 65536, every fill) followed by every sequence of 4 pushes/pops and a drain pops in FIFO order (growth of a wrapped buffer included)",
                "thorough": "patterns up to 3 letters, texts up to 4, keys up to 3; queue lemma: capacity 1..8, 7 operations"},
     "outside": ["patterns that are not valid UTF-8", "more than 3 patterns / longer strings (tries whose breadth-first frontier exceeds the queue's initial capacity of 10 are covered only through the queue lemma, not end to end)", "queue head positions beyond the stated range (the counter restarts at 0 on every growth; a 32-bit wrap needs 2^32 pushes without growth)", "completeness of FuzzySearch (the property only says its results are inserted patterns)"],
     "assumptions": ["letters of different UTF-8 widths are different runes; the letter structure of patterns and texts is enumerated, the rune values and the invalid byte are symbolic"],
@@ -478,6 +496,9 @@ PROPS["C06"] = {
         J(c05 + "Replace", npat=3, plen=1, lastlen=3, tlen=4, letters=2, invalid=0, covers=["overlapping region"], cfg=TR),
         J(c05 + "Replace", npat=2, plen=2, tlen=3, letters=2, invalid=0, rot=2, covers=["overlapping region"], cfg=TR),
         J(c05 + "Replace", npat=2, plen=2, tlen=3, letters=2, invalid=0, rot=3, covers=["overlapping region"], cfg=TR),
+        J(c05 + "Replace", npat=2, plen=2, lastlen=3, tlen=4, letters=2, invalid=0, covers=["overlapping region"], cfg=TR),
+        J(c05 + "Replace", npat=2, plen=2, lastlen=3, tlen=4, letters=2, invalid=0, emptyrepl=1, cfg=TR),
+        J(c05 + "Replace", npat=3, len0=1, len1=2, len2=3, tlen=4, letters=1, invalid=0, emptyrepl=1, cfg=TR),
     ],
     "thorough": [
         J(c05 + "Replace", npat=2, plen=2, tlen=3, letters=3, invalid=1, covers=["overlapping region"], cfg=TR),
@@ -489,7 +510,7 @@ PROPS["C06"] = {
         J(c05 + "Replace", npat=2, plen=2, tlen=3, letters=3, invalid=1, rot=2, covers=["overlapping region"], cfg=TR),
         J(c05 + "Replace", npat=2, plen=2, tlen=3, letters=3, invalid=1, rot=3, covers=["overlapping region"], cfg=TR),
     ],
-    "bounds": {"quick": "same symbolic alphabet as C05; 2 patterns <= 2 letters with texts <= 3 letters over 2 letters / <= 2 over 3 letters (+ one invalid byte); 3 patterns (two of <= 1 letter and one of exactly 3 letters: a long occurrence ending late that starts before earlier disjoint ones) with texts <= 4 over 2 letters; the 2-letter alphabets are {1-byte, 2-byte}, {3-byte, 4-byte} and {4-byte, 1-byte} runes, the 3-letter one {1,2,3-byte}; arbitrary mask rune; replacement = a byte outside the text alphabet",
+    "bounds": {"quick": "same symbolic alphabet as C05; 2 patterns <= 2 letters with texts <= 3 letters over 2 letters / <= 2 over 3 letters (+ one invalid byte); 3 patterns (two of <= 1 letter and one of exactly 3 letters: a long occurrence ending late that starts before earlier disjoint ones) with texts <= 4 over 2 letters; the 2-letter alphabets are {1-byte, 2-byte}, {3-byte, 4-byte} and {4-byte, 1-byte} runes, the 3-letter one {1,2,3-byte}; densely nested occurrences: 2 patterns (<= 2 letters, exactly 3 letters) with texts <= 4, also with an empty replacement (output = exactly the uncovered text), and patterns a, aa, aaa on texts <= 4 over one letter; arbitrary mask rune; replacement = a byte outside the text alphabet",
                "thorough": "patterns up to 3-4 letters, texts up to 5"},
     "outside": ["replacement strings that can occur in the text (the parse of the output would be ambiguous)", "longer texts / more patterns"],
     "assumptions": ["the replacement byte 0x01 does not occur in the text alphabet (1-byte letters are >= 0x20)"],
@@ -592,3 +613,10 @@ PROPS["C09"] = {
     "level_text": "Bounded symbolic model checking of the real cryptz code: plaintext, secret, additional data, salt and garbage input are symbolic bytes; the OpenSSL wire format is compared with an independent EVP_BytesToKey/CBC/GCM construction over the same uninterpreted primitives, round trips and tamper rejection are decided by the solver, and the stream functions are driven through readers whose chunk sizes are symbolic.",
     "level_note": "Trusted: go/ssa, gosym, z3, and the stated cryptographic assumptions; encoding/base64, encoding/hex, io.Copy and cipher.StreamReader/Writer run from their own SSA.",
 }
+
+# the thorough tier always contains the quick jobs as well (nothing that is checked on every change is missing
+# from the deep run); properties without deeper jobs of their own run the quick jobs in both tiers
+for _p in PROPS.values():
+    if "thorough" in _p:
+        _seen = {(j["harness"], j["label"]) for j in _p["quick"]}
+        _p["thorough"] = list(_p["quick"]) + [j for j in _p["thorough"] if (j["harness"], j["label"]) not in _seen]
